@@ -14,11 +14,13 @@ N_QUICK, N_THOROUGH = 90000, 2000000
 T_QUICK, T_THOROUGH = 70, 1500
 CLASSES = ["index-get", "index-set", "negative-index", "length", "shape", "int-length", "string-too-long",
            "bigger-items", "non-member", "wrong-context", "offset-no-buffer", "construct-shape", "struct-with-other-length",
-           "struct-one-refused-field"]
+           "struct-one-refused-field", "extra-dimensions", "mixed-bad-item", "sequence-for-scalar"]
 FLOORS = {"attempts": 20000, "raised": 15000, "state_checks": 20000}
 FLOORS.update({"class:" + c: 300 for c in CLASSES})
 FLOORS["class:struct-with-other-length"] = 80
 FLOORS["class:struct-one-refused-field"] = 80
+FLOORS["class:mixed-bad-item"] = 100
+FLOORS["union_object_at_offset_without_buffer"] = 300
 FLOORS.update({"negative_index_assignments": 100, "non_member_from_same_family": 50, "allocations_after_refusal": 5000,
                "hybrid_copy_with_contradictory_destination": 300, "refused_construction_at_explicit_offset": 100})
 FLOORS.update({"multibyte_too_long_strings": 300, "misuse_value_as_xobject": 300})
@@ -275,6 +277,45 @@ def _plan(cls_, rng, c, allnodes, env):
         def fn(base, p=p, newarg=newarg):
             set_path(base, p, newarg)
         return _poskind(p), f"{l} = {how} of the same class with {fn_} of length {n1} instead of {n0}", fn
+    if cls_ in ("extra-dimensions", "mixed-bad-item"):
+        # whole-array values that are not of the array's shape although their leading extents match
+        cand = [a for a in owned if a[0] and a[2]["it"]["k"] == "sc" and a[3].items]
+        if not cand:
+            return None
+        p, l, nt, nv = rng.choice(cand)
+        good = plain(nt, vg.same_shape(nt, nv), rng)
+        if cls_ == "extra-dimensions":
+            from xv.typegen import as_ndarray
+            if rng.random() < 0.5:
+                arr = as_ndarray(nt, vg.same_shape(nt, nv))
+                newarg = np.stack([arr, arr + 1], axis=-1)  # shape + (2,)
+                how = f"ndarray of shape {newarg.shape}"
+            else:
+                def deepen(x):
+                    return [deepen(y) for y in x] if isinstance(x, list) else [x, x]
+                newarg = deepen(good)
+                how = "nested list with one more level (every number replaced by a pair)"
+        else:
+            if not isinstance(good, list) or len(nv.shape) != 1 or nv.shape[0] < 2:
+                return None
+            newarg = list(good)
+            newarg[-1] = [newarg[-1], newarg[-1]]  # acceptable items first, then a pair where a number is expected
+            how = "list whose last item is a pair"
+
+        def fn(base, p=p, newarg=newarg):
+            set_path(base, p, newarg)
+        return _poskind(p), f"{l} (shape {list(nv.shape)}) = {how}", fn
+    if cls_ == "sequence-for-scalar":
+        cand = [x for x in allnodes if x[2]["k"] == "sc" and x[0]]
+        if not cand:
+            return None
+        p, l, nt, nv = rng.choice(cand)
+        v = nv.item()
+        newarg = rng.choice([[v, v], (v, v, v), np.array([v, v], dtype=nv.dtype)])
+
+        def fn(base, p=p, newarg=newarg):
+            set_path(base, p, newarg)
+        return _poskind(p), f"{l} = {type(newarg).__name__} of {len(newarg)} numbers where one number is expected", fn
     if cls_ == "struct-one-refused-field":
         cand = []
         for p, l, nt, nv in allnodes:
@@ -342,6 +383,17 @@ def _plan(cls_, rng, c, allnodes, env):
         def fn(base):
             c.cls(arg, _buffer=other, _context=ctxs()[0])
         return "root", "T(value, _buffer=<buffer of context B>, _context=<context A>)", fn
+    if cls_ == "offset-no-buffer" and rng.random() < 0.3:
+        # a union reference object built from an existing object, at an explicit offset, without a buffer
+        U = type(f"XvU{t['n']}", (xo.UnionRef,), {"_reftypes": [c.cls]})
+        tgt = c.cls(arg, _buffer=env.buf)
+        env.repoison()
+        off = rng.choice([int(tgt._offset), 0, 8])
+
+        def fn(base):
+            U(tgt, _offset=off)
+        _W[0].count("union_object_at_offset_without_buffer")
+        return "root", f"U(obj, _offset={off}) without buffer (obj lives at {int(tgt._offset)})", fn
     if cls_ == "offset-no-buffer":
         def fn(base):
             c.cls(arg, _offset=rng.choice([0, 8, 64]))
